@@ -273,14 +273,17 @@ func runC05(rc *RunCtx, faulty bool) *simkit.Violation {
 	return nil
 }
 
-func fired(w *simkit.World) bool {
+func fired(w *simkit.World) bool { return faultCount(w) > 0 }
+
+// faultCount is the number of faults (stalls apart) injected so far
+func faultCount(w *simkit.World) int {
 	n := 0
 	for k, v := range w.Stats.Faults {
 		if k != "F-STALL" {
 			n += v
 		}
 	}
-	return n > 0
+	return n
 }
 
 var _ afero.Fs
